@@ -214,7 +214,7 @@ const STRUCTURAL: [&str; 17] = [
 /// (source, skippable member?, expected: Reject | Value(v))
 pub fn structural_program(kind: &str, skip: Skip) -> Option<(File, Option<File>)> {
     let keep = Field::new("keep", Ty::Prim("u32"));
-    let can_skip = matches!(kind, "tuple-variant-2" | "flatten-struct-field" | "flatten-variant-field");
+    let can_skip = matches!(kind, "tuple-variant-2" | "flatten-struct-field" | "flatten-variant-field") || kind.starts_with("enum-no-") || kind.starts_with("unit-enum-with-");
     if skip != Skip::No && !can_skip {
         return None;
     }
@@ -244,26 +244,49 @@ pub fn structural_program(kind: &str, skip: Skip) -> Option<(File, Option<File>)
             return Some((with, Some(without)));
         }
         "enum-no-tag" | "enum-no-content" | "enum-no-tag-no-content" => {
-            let mut e = Item::enumm("Outer", vec![Variant::new("A", VKind::Newtype(Ty::Prim("u32"))), Variant::new("B", VKind::Unit)]);
-            if let IKind::Enum { tag, content, .. } = &mut e.kind {
-                if kind != "enum-no-content" {
-                    *tag = None;
+            // with a skip marker on the only data-carrying variant the rest is a plain unit enum
+            let strip = |e: &mut Item| {
+                if let IKind::Enum { tag, content, .. } = &mut e.kind {
+                    if kind != "enum-no-content" {
+                        *tag = None;
+                    }
+                    if kind != "enum-no-tag" {
+                        *content = None;
+                    }
                 }
-                if kind != "enum-no-tag" {
-                    *content = None;
+            };
+            let mut a = Variant::new("A", VKind::Newtype(Ty::Prim("u32")));
+            a.skip = skip;
+            let mut e = Item::enumm("Outer", vec![a, Variant::new("B", VKind::Unit), Variant::new("C", VKind::Unit)]);
+            strip(&mut e);
+            if skip != Skip::No {
+                // without the member: the same attributes on what is now a unit enum (a leftover tag / content key
+                // on a unit enum is itself a rejected construct, so both runs must then be rejected)
+                let mut w = Item::enumm("Outer", vec![Variant::new("B", VKind::Unit), Variant::new("C", VKind::Unit)]);
+                if let (IKind::Enum { tag: wt, content: wc, .. }, IKind::Enum { tag, content, .. }) = (&mut w.kind, &e.kind) {
+                    *wt = tag.clone();
+                    *wc = content.clone();
                 }
+                return Some((File::single(vec![e]), Some(File::single(vec![w]))));
             }
             File::single(vec![e])
         }
         "unit-enum-with-tag" | "unit-enum-with-content" | "unit-enum-with-both" => {
+            let dress = |e: &mut Item| {
+                if let IKind::Enum { tag, content, .. } = &mut e.kind {
+                    *tag = (kind != "unit-enum-with-content").then(|| "t".to_string());
+                    *content = (kind != "unit-enum-with-tag").then(|| "c".to_string());
+                }
+            };
             let mut e = Item::enumm("Outer", vec![Variant::new("A", VKind::Unit), Variant::new("B", VKind::Unit)]);
-            if let IKind::Enum { tag, content, .. } = &mut e.kind {
-                if kind != "unit-enum-with-content" {
-                    *tag = Some("t".into());
-                }
-                if kind != "unit-enum-with-tag" {
-                    *content = Some("c".into());
-                }
+            dress(&mut e);
+            if skip != Skip::No {
+                // a skipped data-carrying variant does not turn the unit enum into an algebraic one
+                let mut d = Variant::new("D", VKind::Newtype(Ty::Prim("u32")));
+                d.skip = skip;
+                let mut with = Item::enumm("Outer", vec![Variant::new("A", VKind::Unit), Variant::new("B", VKind::Unit), d]);
+                dress(&mut with);
+                return Some((File::single(vec![with]), Some(File::single(vec![e]))));
             }
             File::single(vec![e])
         }
@@ -323,18 +346,27 @@ pub fn check_structural(kind: &'static str, skip: Skip, lang: Lang, choices: &[u
                 acc.vios.add(Violation { sig: format!("C08|{}|accepted-silently|construct={kind}", lang.name()), detail: detail(json!({"output": text})) });
             }
         }
-        (Outcome::Ok(m), _) => {
-            // skipped: must equal the program without the member
-            let src2 = render_file(without.as_ref().unwrap());
-            let b = pipeline::run(&[SrcFile::single(src2)], lang, &Cfg::plain());
-            if b.single_text() != m.values().next().map(|s| s.as_str()) {
-                acc.vios.add(Violation { sig: format!("C08|{}|skipped-member-changes-output|construct={kind}|skip={skip:?}", lang.name()), detail: detail(json!({"with": format!("{o:?}").chars().take(500).collect::<String>(), "without": format!("{b:?}").chars().take(500).collect::<String>()})) });
-            }
-        }
         (_, Skip::No) => {
             // rejected with an error: what the property asks for (for representable consts a rejection is also acceptable)
         }
-        (other, _) => acc.vios.add(Violation { sig: format!("C08|{}|rejected-although-skipped|construct={kind}|skip={skip:?}", lang.name()), detail: detail(json!(format!("{other:?}").chars().take(300).collect::<String>())) }),
+        (with_o, _) => {
+            // under a skip marker the member does not exist: same outcome (and same text) as the program without it
+            let src2 = render_file(without.as_ref().unwrap());
+            let b = pipeline::run(&[SrcFile::single(src2.clone())], lang, &Cfg::plain());
+            let same = match (with_o, &b) {
+                (Outcome::Ok(m), Outcome::Ok(_)) => b.single_text() == m.values().next().map(|s| s.as_str()).or(Some("")),
+                (Outcome::Ok(_), _) | (_, Outcome::Ok(_)) => false,
+                _ => true, // both rejected
+            };
+            if !same {
+                let class = match (with_o, &b) {
+                    (Outcome::Ok(_), Outcome::Ok(_)) => "skipped-member-changes-output",
+                    (Outcome::Ok(_), _) => "accepted-only-because-of-skipped-member",
+                    _ => "rejected-although-skipped",
+                };
+                acc.vios.add(Violation { sig: format!("C08|{}|{class}|construct={kind}|skip={skip:?}", lang.name()), detail: detail(json!({"with": format!("{with_o:?}").chars().take(500).collect::<String>(), "without_member_source": src2, "without": format!("{b:?}").chars().take(500).collect::<String>()})) });
+            }
+        }
     }
 }
 
